@@ -1353,10 +1353,10 @@ Definition type_selects (K : Kinds.kind) (rem : list (string * gv)) : Prop :=
   | None => True
   end.
 
-Lemma cmd_map_kind : forall c, cmd_ok c -> type_selects KCommand (cs_rem c) ->
+Lemma cmd_map_kind : forall c, rem_ok cmd_primary (cs_rem c) -> type_selects KCommand (cs_rem c) ->
   map_kind (gmap (members (mj_command c))) = Some KCommand.
 Proof.
-  intros c (R & _) T. pose proof R as (Nr & _ & _). rewrite mj_command_ol.
+  intros c R T. pose proof R as (Nr & _ & _). rewrite mj_command_ol.
   assert (Nol : NoDup (map fst (cmd_ol c))) by (apply nodupb_sound; reflexivity).
   unfold map_kind. rewrite reobj_get by assumption.
   assert (E : aget "type" (cmd_ol c) = None) by reflexivity. rewrite E.
@@ -1492,9 +1492,15 @@ Definition unknown_again (g : gv) : Prop :=
 Definition alias_free (k : string) (rem : list (string * gv)) : Prop :=
   k = "" -> ~ In "id" (map fst rem) /\ ~ In "identifier" (map fst rem).
 
+(* a command step whose marshalled form is rejected by CommandStep.UnmarshalOrdered: the re-parse
+   falls back to an unknown step holding the same (stable) JSON *)
+Definition cmd_falls_back (c : command_step) : Prop :=
+  rem_ok cmd_primary (cs_rem c) /\ json_stable (mj_command c) /\
+  unm_command (gmap (members (mj_command c))) = Err.
+
 Fixpoint step_fix_ok (s : step) : Prop :=
   match s with
-  | SCommand c => cmd_ok c /\ type_selects KCommand (cs_rem c)
+  | SCommand c => (cmd_ok c \/ cmd_falls_back c) /\ type_selects KCommand (cs_rem c)
   | SWait sc ct => sc <> "" \/ ct = [] \/ contents_ok KWait ct
   | SInput sc ct => sc <> "" \/ contents_ok KInput ct
   | STrigger ct => contents_ok KTrigger ct
@@ -1577,9 +1583,12 @@ Proof.
     destruct f as [|f]; [pose proof (depth_pos (gv_of_json (mj_step (SCommand c)))); lia|].
     destruct OK as [CO T]. cbn [mj_step].
     assert (EQ : gv_of_json (mj_command c) = GMap (gmap (members (mj_command c)))) by reflexivity.
-    rewrite EQ, unm_step_map_kind, (cmd_map_kind c CO T). cbn [typed_body].
-    destruct (command_roundtrip c CO) as (c' & E1 & E2). rewrite E1.
-    exists (SCommand c'), 0. split; [reflexivity|]. cbn [mj_step]. exact E2.
+    destruct CO as [CO|(R & St & Er)].
+    + rewrite EQ, unm_step_map_kind, (cmd_map_kind c (proj1 CO) T). cbn [typed_body].
+      destruct (command_roundtrip c CO) as (c' & E1 & E2). rewrite E1.
+      exists (SCommand c'), 0. split; [reflexivity|]. cbn [mj_step]. exact E2.
+    + rewrite EQ, unm_step_map_kind, (cmd_map_kind c R T). cbn [typed_body]. rewrite Er.
+      eexists. eexists. split; [reflexivity|]. cbn [mj_step]. rewrite <- EQ. apply gv_json_of_json. exact St.
   - (* wait *)
     destruct f as [|f]; [pose proof (depth_pos (gv_of_json (mj_step (SWait sc ct)))); lia|].
     cbn [mj_step]. destruct (String.eqb_spec sc "") as [E|N]; cbn [negb].
@@ -2111,16 +2120,221 @@ Proof.
 Qed.
 
 Definition restr (s : step) : Prop :=
-  (alias_local s /\ sources_local s) /\ (with_local s /\ unknown_local s).
+  (alias_local s /\ sources_local s) /\ unknown_local s.
 
-Lemma cmd_from_pre : forall c, cmd_pre c -> restr (SCommand c) -> cmd_ok c.
+Lemma cmd_from_pre : forall c, cmd_pre c ->
+  alias_local (SCommand c) -> sources_local (SCommand c) -> with_local (SCommand c) -> cmd_ok c.
 Proof.
-  intros c (R & HP & HM & HC) ((A & S) & (Wt & _)). cbn [alias_local sources_local with_local] in *.
+  intros c (R & HP & HM & HC) A S Wt. cbn [alias_local sources_local with_local] in *.
   destruct A as [A1 A2]. split; [exact R|]. split; [exact A1|]. split; [exact A2|]. split; [|split; [|exact HC]].
   - rewrite Forall_forall in *. intros p Hp. destruct (HP p Hp) as [X Y]. split; [apply S; exact Hp|split; assumption].
   - destruct (cs_matrix c) as [m|]; [|exact I]. destruct HM as (H1 & H2 & H3). split; [exact H1|split; [|exact H3]].
     rewrite Forall_forall in *. intros a Ha. specialize (H2 a Ha). specialize (Wt a Ha).
     destruct a as [a|]; [|exact I]. cbn [adj_pre adj_has_with adj_fix_ok] in *. destruct H2. auto.
+Qed.
+
+(** the marshalled forms are stable JSON *)
+Lemma inline_friendly_stable : forall outline rem,
+  NoDup (map fst outline) -> NoDup (map fst rem) ->
+  Forall (fun kv => json_stable (snd kv)) outline -> vals_stable rem ->
+  json_stable (inline_friendly outline rem).
+Proof.
+  intros outline rem No Nr So Sr. rewrite inline_friendly_members. apply json_stable_obj.
+  rewrite Forall_forall. intros [k j] Hin. cbn [snd].
+  apply (in_aget k j _ (inline_friendly_nodup outline rem)) in Hin.
+  rewrite inline_friendly_lookup in Hin by assumption.
+  destruct (aget k outline) as [j0|] eqn:Eo.
+  - inversion Hin; subst j0. apply aget_some_in in Eo. rewrite Forall_forall in So. apply (So (k, j) Eo).
+  - destruct (aget k rem) as [v|] eqn:Er; [|discriminate Hin]. inversion Hin; subst j.
+    eapply vals_stable_get; eassumption.
+Qed.
+
+Definition ol_stable (ol : list (string * option json)) : Prop :=
+  Forall (fun e => match snd e with Some j => json_stable j | None => True end) ol.
+
+Lemma compact_stable : forall ol, ol_stable ol -> Forall (fun kv => json_stable (snd kv)) (compact ol).
+Proof.
+  induction ol as [|[k o] r IH]; intros H; [constructor|]. inversion H; subst.
+  destruct o as [j|].
+  - change (compact ((k, Some j) :: r)) with ((k, j) :: compact r). constructor; [assumption|apply IH; assumption].
+  - change (compact ((k, None) :: r)) with (compact r). apply IH; assumption.
+Qed.
+
+Lemma ol_object_stable : forall ol rem,
+  NoDup (map fst ol) -> NoDup (map fst rem) -> ol_stable ol -> vals_stable rem ->
+  json_stable (inline_friendly (compact ol) rem).
+Proof.
+  intros. apply inline_friendly_stable; try assumption; [apply compact_nodup|apply compact_stable]; assumption.
+Qed.
+
+Lemma jstrs_stable : forall l, json_stable (jstrs l).
+Proof. intros l. unfold jstrs. apply json_stable_arr. rewrite Forall_map. apply Forall_forall. intros; exact I. Qed.
+
+Lemma map_ss_stable : forall l, json_stable (mj_map_ss l).
+Proof.
+  intros l. unfold mj_map_ss. apply json_stable_obj.
+  apply (Permutation_Forall (Permutation_sym (sort_keys_perm _))). rewrite Forall_map.
+  apply Forall_forall. intros; exact I.
+Qed.
+
+Lemma str_opt_stable : forall s, match str_opt s with Some j => json_stable j | None => True end.
+Proof. intros s. unfold str_opt. destruct (String.eqb s ""); exact I. Qed.
+
+Lemma with_stable : forall w, json_stable (mj_with w).
+Proof.
+  intros [l|]; [|exact I]. destruct l as [|[k v] [|y r]]; try apply map_ss_stable.
+  cbn [mj_with]. destruct (String.eqb k ""); [exact I|apply map_ss_stable].
+Qed.
+
+Lemma adj_stable : forall a, adj_pre a -> json_stable (mj_adj a).
+Proof.
+  intros [a|] H; [|exact I]. destruct H as [[Ss _] (Nr & _ & Vs)]. rewrite mj_adj_eq.
+  apply ol_object_stable; try assumption; [apply nodupb_sound; reflexivity|].
+  unfold adj_ol, ol_stable. constructor; [apply with_stable|]. constructor; [|constructor].
+  cbn [snd]. destruct (is_empty_any (ma_skip a)); [exact I|exact Ss].
+Qed.
+
+Lemma setup_stable : forall su, json_stable (mj_setup su).
+Proof.
+  intros [l|]; [|exact I]. destruct l as [|x r]; [exact I|].
+  change (mj_setup (Some (x :: r))) with
+    (match setup_anon (x :: r) with
+     | Some vs => jstrs vs
+     | None => JObj (sort_keys (map (fun kv => (fst kv, mj_strs_opt (snd kv))) (x :: r)))
+     end).
+  destruct (setup_anon (x :: r)); [apply jstrs_stable|].
+  apply json_stable_obj. apply (Permutation_Forall (Permutation_sym (sort_keys_perm _))). rewrite Forall_map.
+  apply Forall_forall. intros [k [vs|]] _; cbn [snd mj_strs_opt]; [apply jstrs_stable|exact I].
+Qed.
+
+Lemma matrix_stable : forall m, matrix_pre m -> json_stable (mj_matrix m).
+Proof.
+  intros m (_ & HA & (Nr & _ & Vs)). destruct (mx_simple m) as [vs|] eqn:S.
+  - unfold mj_matrix. rewrite S. apply jstrs_stable.
+  - rewrite (mj_matrix_eq m S). apply ol_object_stable; try assumption; [apply nodupb_sound; reflexivity|].
+    unfold matrix_ol, ol_stable. constructor; [apply setup_stable|]. constructor; [|constructor].
+    cbn [snd]. destruct (mx_adj m) as [|a0 r0] eqn:EA; [exact I|]. rewrite <- EA in *.
+    apply json_stable_arr. rewrite Forall_map. eapply Forall_impl; [|exact HA]. apply adj_stable.
+Qed.
+
+Lemma cache_stable : forall c, cache_fix_ok c -> json_stable (mj_cache c).
+Proof.
+  intros c H. destruct (ca_disabled c) eqn:D.
+  - unfold mj_cache. rewrite D. exact I.
+  - destruct H as [H|(Nr & _ & Vs)]; [congruence|]. rewrite (mj_cache_eq c D).
+    apply ol_object_stable; try assumption; [apply nodupb_sound; reflexivity|].
+    unfold cache_ol, ol_stable. repeat constructor; cbn [snd].
+    + destruct (String.eqb (ca_name c) ""); exact I.
+    + destruct (ca_paths c); [exact I|apply jstrs_stable].
+    + destruct (String.eqb (ca_size c) ""); exact I.
+Qed.
+
+Lemma plugin_stable : forall p, plugin_pre p -> json_stable (mj_plugin p).
+Proof.
+  intros p [_ Vs]. rewrite mj_plugin_eq. cbn [json_stable snd]. split; [|exact I].
+  destruct (plugin_cfg_spec (pl_config p)) as [E|[E _]]; rewrite E; [exact Vs|exact I].
+Qed.
+
+Lemma sig_stable : forall s, json_stable (mj_sig s).
+Proof.
+  intros s. unfold mj_sig. cbn [json_stable snd]. repeat split.
+  destruct (sg_fields s); [apply jstrs_stable|exact I].
+Qed.
+
+Lemma command_stable : forall c, cmd_pre c -> json_stable (mj_command c).
+Proof.
+  intros c ((Nr & _ & Vs) & HP & HM & HC). rewrite mj_command_ol.
+  apply ol_object_stable; try assumption; [apply nodupb_sound; reflexivity|].
+  unfold cmd_ol, ol_stable. repeat constructor; cbn [snd].
+  - apply str_opt_stable.
+  - apply str_opt_stable.
+  - destruct (cs_plugins c) as [|p0 r0] eqn:EP; [exact I|]. rewrite <- EP in *. cbn [ne_opt].
+    destruct (cs_plugins c); [exact I|].
+    apply json_stable_arr. rewrite Forall_map. eapply Forall_impl; [|exact HP]. apply plugin_stable.
+  - destruct (cs_env c); [exact I|apply map_ss_stable].
+  - destruct (cs_sig c); [apply sig_stable|exact I].
+  - destruct (cs_matrix c); [apply matrix_stable; exact HM|exact I].
+  - destruct (cs_cache c); [apply cache_stable; exact HC|exact I].
+Qed.
+
+(** an adjustment without `with`: the re-parse rejects the command step *)
+Lemma bind_err_r : forall {T U} (r : res T) (f : T -> res U), (forall x, f x = Err) -> bind r f = Err.
+Proof. intros T U r f H. unfold bind. destruct r; [rewrite H|]; reflexivity. Qed.
+
+Lemma mapM_err : forall {T U} (f : T -> res U) l x, In x l -> f x = Err -> mapM f l = Err.
+Proof.
+  intros T U f l x. induction l as [|y r IH]; intros Hin E; [destruct Hin|]. cbn [mapM].
+  destruct Hin as [->|Hin]; [rewrite E; reflexivity|].
+  apply bind_err_r. intros y'. rewrite (IH Hin E). reflexivity.
+Qed.
+
+Lemma adj_without_with_err : forall a, adj_pre (Some a) -> ma_with a = None ->
+  unm_adj (gv_of_json (mj_adj (Some a))) = Err.
+Proof.
+  intros a [_ R] W. rewrite mj_adj_eq, W. rewrite inline_friendly_members, gv_of_json_obj. cbn [unm_adj]. cbv zeta.
+  pose proof (adj_reobj (Some (mj_with None))
+                (if is_empty_any (ma_skip a) then None else Some (gv_json (ma_skip a))) _ R) as X.
+  cbv zeta in X. fold (adj_ol None (ma_skip a)) in X. destruct X as (F1 & _ & _).
+  rewrite F1. reflexivity.
+Qed.
+
+Lemma matrix_without_with_err : forall m a, matrix_pre m -> In (Some a) (mx_adj m) -> ma_with a = None ->
+  unm_matrix (gv_of_json (mj_matrix m)) = Err.
+Proof.
+  intros m a (_ & HA & R) Hin W.
+  assert (S : mx_simple m = None).
+  { rewrite mx_simple_eq. destruct (mx_adj m); [destruct Hin|reflexivity]. }
+  rewrite (mj_matrix_eq m S). rewrite inline_friendly_members, gv_of_json_obj. cbn [unm_matrix]. cbv zeta.
+  pose proof (matrix_reobj (Some (mj_setup (mx_setup m)))
+                (match mx_adj m with [] => None | _ => Some (JArr (map mj_adj (mx_adj m))) end) _ R) as X.
+  cbv zeta in X. fold (matrix_ol m) in X. destruct X as (_ & F2 & _).
+  apply bind_err_r. intros su.
+  assert (E : opt_field "Adjustments"
+                (partition_keys struct_Matrix (gmap (members (inline_friendly (compact (matrix_ol m)) (mx_rem m)))))
+                [] unm_adjs = Err).
+  { destruct (mx_adj m) as [|a0 r0] eqn:EA; [destruct Hin|]. rewrite <- EA in *. cbn [option_map] in F2.
+    rewrite (opt_field_some _ _ _ _ _ F2). rewrite gv_of_json_arr. cbn [unm_adjs].
+    apply (mapM_err unm_adj _ (gv_of_json (mj_adj (Some a)))).
+    - apply in_map. apply in_map. exact Hin.
+    - apply adj_without_with_err; [|exact W]. rewrite Forall_forall in HA. apply (HA _ Hin). }
+  rewrite E. reflexivity.
+Qed.
+
+Lemma with_missing_falls_back : forall c mx a,
+  cmd_pre c -> alias_local (SCommand c) ->
+  cs_matrix c = Some mx -> In (Some a) (mx_adj mx) -> ma_with a = None ->
+  cmd_falls_back c.
+Proof.
+  intros c mx a Pre A Em Hin W. pose proof Pre as (R & _ & HM & _). rewrite Em in HM.
+  split; [exact R|]. split; [apply command_stable; exact Pre|].
+  destruct A as [A1 A2].
+  rewrite (mj_command_ol c).
+  assert (A1' : str_opt (cs_key c) = None -> ~ In "id" (map fst (cs_rem c)) /\ ~ In "identifier" (map fst (cs_rem c))).
+  { unfold str_opt. destruct (String.eqb_spec (cs_key c) ""); [intros _; apply A1; assumption|discriminate]. }
+  assert (A2' : str_opt (cs_label c) = None -> ~ In "name" (map fst (cs_rem c))).
+  { unfold str_opt. destruct (String.eqb_spec (cs_label c) ""); [intros _; apply A2; assumption|discriminate]. }
+  pose proof (cmd_reobj (str_opt (cs_key c)) (str_opt (cs_label c)) (JStr (cs_command c))
+                (ne_opt (cs_plugins c) (JArr (map mj_plugin (cs_plugins c))))
+                (ne_opt (cs_env c) (mj_map_ss (cs_env c)))
+                (option_map mj_sig (cs_sig c)) (option_map mj_matrix (cs_matrix c))
+                (option_map mj_cache (cs_cache c)) (cs_rem c) R A1' A2') as X.
+  cbv zeta in X. fold (cmd_ol c) in X.
+  destruct X as (_ & _ & _ & _ & _ & _ & _ & F7 & _ & _).
+  rewrite Em in F7. cbn [option_map] in F7.
+  unfold unm_command. cbv zeta.
+  do 7 (apply bind_err_r; intro).
+  rewrite (opt_field_some _ _ _ _ _ F7), (matrix_without_with_err mx a HM Hin W). reflexivity.
+Qed.
+
+Lemma with_dec : forall l, Forall adj_has_with l \/ exists a, In (Some a) l /\ ma_with a = None.
+Proof.
+  induction l as [|x r [IH|(a & Hin & W)]].
+  - left. constructor.
+  - destruct x as [a|]; [|left; constructor; [exact I|exact IH]].
+    destruct (ma_with a) eqn:W.
+    + left. constructor; [cbn [adj_has_with]; congruence|exact IH].
+    + right. exists a. split; [left; reflexivity|exact W].
+  - right. exists a. split; [right; exact Hin|exact W].
 Qed.
 
 Lemma fix_mutual : forall f,
@@ -2137,13 +2351,19 @@ Proof.
     pose proof (steps_all_head _ _ R) as RL.
     assert (U : forall m, g = GMap m -> s = SUnknown g -> step_fix_ok s).
     { intros m -> ->. split; [apply gv_wf_stable; exact W|].
-      destruct RL as (_ & _ & e & MK). eapply unknown_again_doc. exact MK. }
+      destruct RL as (_ & e & MK). eapply unknown_again_doc. exact MK. }
     assert (T : forall m K, g = GMap m -> map_kind m = Some K -> typed_shape (unm_steps f) m K s w -> step_fix_ok s).
     { intros m K Hg MK Hs. subst g. pose proof W as W'. apply gv_wf_map in W'. destruct W' as [Nd _].
       destruct Hs as [Hs ?|c HK Hc Hs ?|HK Hs ?|HK Hs ?|HK Hs ?|key gr ss HK Hs Hf].
       - eapply U; [reflexivity|exact Hs].
       - subst s K. cbn [step_fix_ok]. split.
-        + apply cmd_from_pre; [|exact RL]. exact (all_ok _ _ _ _ (wf_unm_command m W) Hc).
+        + pose proof (all_ok _ _ _ _ (wf_unm_command m W) Hc) as Pre.
+          destruct RL as ((A & S) & _).
+          destruct (cs_matrix c) as [mx|] eqn:Em.
+          * destruct (with_dec (mx_adj mx)) as [Wt|(a & Hin & Wn)].
+            -- left. apply cmd_from_pre; try assumption. cbn [with_local]. rewrite Em. exact Wt.
+            -- right. eapply with_missing_falls_back; eassumption.
+          * left. apply cmd_from_pre; try assumption. cbn [with_local]. rewrite Em. exact I.
         + unfold type_selects. rewrite (cmd_rem_type _ _ _ Hc). unfold map_kind in MK.
           destruct (aget "type" m) as [[]|]; try discriminate MK; [|exact I]. congruence.
       - subst s K. right. right. split; [exact Nd|split; [apply vals_stable_wf; exact W|exact MK]].
@@ -2189,24 +2409,21 @@ Qed.
 (* the side condition holds for what Parse produces from any well-formed document, outside the excluded classes *)
 Theorem parse_result_fix_ok : forall g p w,
   parse_doc g = Ok p w -> doc_ok g ->
-  no_empty_primary_with_alias p -> plugin_sources_canonical p ->
-  adjustments_have_with p -> no_fallback_unknown p ->
+  no_empty_primary_with_alias p -> plugin_sources_canonical p -> no_fallback_unknown p ->
   pipeline_fix_ok p.
 Proof.
-  intros g p w H W R1 R2 R3 R4. eapply parse_result_fix_ok_core; [exact H|exact W|].
-  unfold no_empty_primary_with_alias, plugin_sources_canonical, adjustments_have_with, no_fallback_unknown,
-    pipeline_all in *.
+  intros g p w H W R1 R2 R4. eapply parse_result_fix_ok_core; [exact H|exact W|].
+  unfold no_empty_primary_with_alias, plugin_sources_canonical, no_fallback_unknown, pipeline_all in *.
   rewrite Forall_forall in *. intros s Hs. unfold restr.
-  apply (steps_all_and (fun s => alias_local s /\ sources_local s) (fun s => with_local s /\ unknown_local s)).
+  apply (steps_all_and (fun s => alias_local s /\ sources_local s) unknown_local).
   - apply steps_all_and; auto.
-  - apply steps_all_and; auto.
+  - auto.
 Qed.
 
 (* parse, marshal, re-parse, marshal: the second marshalling equals the first *)
 Corollary parse_marshal_reparse : forall g p w,
   parse_doc g = Ok p w -> doc_ok g ->
-  no_empty_primary_with_alias p -> plugin_sources_canonical p ->
-  adjustments_have_with p -> no_fallback_unknown p ->
+  no_empty_primary_with_alias p -> plugin_sources_canonical p -> no_fallback_unknown p ->
   exists p' w', reparse_json p = Ok p' w' /\ mj_pipeline p' = mj_pipeline p.
 Proof. intros. apply reparse_fixpoint. eapply parse_result_fix_ok; eassumption. Qed.
 
@@ -2250,7 +2467,7 @@ Ltac pred :=
 
 Example demo_ok : exists p w,
   parse_doc demo_doc = Ok p w /\ doc_ok demo_doc /\
-  no_empty_primary_with_alias p /\ plugin_sources_canonical p /\ adjustments_have_with p /\ no_fallback_unknown p.
+  no_empty_primary_with_alias p /\ plugin_sources_canonical p /\ no_fallback_unknown p.
 Proof.
   remember (parse_doc demo_doc) as r eqn:Er. vm_compute in Er.
   eexists. eexists. split; [rewrite Er; reflexivity|].
@@ -2259,8 +2476,6 @@ Proof.
            repeat constructor; cbn [alias_local alias_free cs_key cs_label cs_rem]; try (intros; discriminate); pred. }
   split. { unfold plugin_sources_canonical, pipeline_all. cbn [pp_steps].
            repeat constructor; cbn [sources_local cs_plugins]; pred. }
-  split. { unfold adjustments_have_with, pipeline_all. cbn [pp_steps].
-           repeat constructor; cbn [with_local cs_matrix mx_adj adj_has_with ma_with]; pred. }
   unfold no_fallback_unknown, pipeline_all. cbn [pp_steps].
   repeat constructor; cbn [unknown_local]; pred.
 Qed.
@@ -2268,8 +2483,8 @@ Qed.
 Example demo_fixpoint : exists p w p' w',
   parse_doc demo_doc = Ok p w /\ reparse_json p = Ok p' w' /\ mj_pipeline p' = mj_pipeline p.
 Proof.
-  destruct demo_ok as (p & w & H & W & R1 & R2 & R3 & R4).
-  destruct (parse_marshal_reparse _ _ _ H W R1 R2 R3 R4) as (p' & w' & E1 & E2).
+  destruct demo_ok as (p & w & H & W & R1 & R2 & R4).
+  destruct (parse_marshal_reparse _ _ _ H W R1 R2 R4) as (p' & w' & E1 & E2).
   exists p, w, p', w'. auto.
 Qed.
 
@@ -2322,21 +2537,24 @@ Example unstable_number_counterexample :
 Proof. fix_fails d_negzero. Qed.
 
 (* an adjustment without `with` marshals "with": null, which the re-parse rejects; the whole step then
-   falls back to an unknown step holding the same JSON: excluded by [adjustments_have_with] (the proof
-   needs the typed decode to succeed) although the fixpoint property itself still holds *)
+   falls back to an unknown step holding the same JSON: covered by the theorem ([cmd_falls_back]) *)
 Definition d_with : gv :=
   GSeq [GMap [("command", GStr "x");
               ("matrix", GMap [("setup", GSeq [GStr "a"]); ("adjustments", GSeq [GMap [("skip", GBool true)]])])]].
-Example adjustment_without_with_still_fixpoint :
-  exists p w p' w', parse_doc d_with = Ok p w /\ ~ adjustments_have_with p /\
-                    reparse_json p = Ok p' w' /\ mj_pipeline p' = mj_pipeline p.
+Example adjustment_without_with_covered :
+  exists p w, parse_doc d_with = Ok p w /\ ~ adjustments_have_with p /\ pipeline_fix_ok p.
 Proof.
   remember (parse_doc d_with) as r eqn:Er. vm_compute in Er.
-  eexists. eexists. eexists. eexists. split; [rewrite Er; reflexivity|]. split.
+  eexists. eexists. split; [rewrite Er; reflexivity|]. split.
   - unfold adjustments_have_with, pipeline_all. cbn [pp_steps]. intros H. inversion H as [|? ? H1 _]; subst.
     destruct H1 as [H1 _]. cbn [with_local cs_matrix mx_adj] in H1. inversion H1 as [|? ? H2 _]; subst.
     apply H2. reflexivity.
-  - split; vm_compute; reflexivity.
+  - eapply (parse_result_fix_ok d_with); [vm_compute; reflexivity| | | |].
+    + unfold doc_ok, d_with. cbn [gv_wf map fst snd]. pred.
+    + unfold no_empty_primary_with_alias, pipeline_all. cbn [pp_steps].
+      repeat constructor; cbn [alias_local alias_free cs_key cs_label cs_rem]; pred.
+    + unfold plugin_sources_canonical, pipeline_all. cbn [pp_steps]. repeat constructor; cbn [sources_local cs_plugins]; pred.
+    + unfold no_fallback_unknown, pipeline_all. cbn [pp_steps]. repeat constructor; cbn [unknown_local]; pred.
 Qed.
 
 (* configs as Parse stores them (ToMapRecursive of a document value) are fixpoints *)
